@@ -93,6 +93,7 @@ class PyRepo:
                 self.modules[rel] = self._index(rel, path, tree, src)
         self._materialise_installed_methods()
         self._inline_trivial_accessors()
+        self._inline_private_value_methods()
         self._dissolve_delegating_methods()
         self._specialise_self_dispatch()
         self._pull_down_template_methods()
@@ -316,6 +317,61 @@ class PyRepo:
                 c_.args = []
         if K is not None and other_use[0]:
             self.call_style_operands.append((mname, ci.name, g.name, g))
+
+    def _inline_private_value_methods(self) -> None:
+        """A private method that computes a value - statements followed by one `return E`, no other return, no loop, not overridden,
+        not recursive - and is called as `x = self._m(a, b)` / `x, y = self._m(a, b)` with plain arguments is written out at those
+        calls (pynormal.expand_assigned_calls: parameters bound, locals renamed apart, the return turned into the assignment; a
+        returned pair unpacked component by component).  The method itself stays.  Rules that follow a value through one method
+        body (the walk over a pattern, the operands of a call) then see the statements whether or not the project gave them a name."""
+        import copy
+        from .pynormal import expand_assigned_calls, unpack_display_assign, fold_temporaries
+        self.value_methods_inlined = 0
+        all_classes = [c for m in self.modules.values() for c in m.classes.values()]
+        for ci in all_classes:
+            subs = [c for c in all_classes if c is not ci and any(b is ci for b in self.mro(c)[1:])]
+            for gname, g in list(ci.methods.items()):
+                if not gname.startswith('_') or gname.startswith('__') or g.decorator_list or any(gname in c.methods for c in subs):
+                    continue
+                if g.args.vararg or g.args.kwarg or g.args.kwonlyargs or g.args.defaults or len(g.args.args) < 1:
+                    continue
+                body = [x for x in g.body if not (isinstance(x, ast.Expr) and isinstance(x.value, ast.Constant))]
+                rets = [x for x in ast.walk(g) if isinstance(x, ast.Return)]
+                if len(body) < 2 or len(rets) != 1 or rets[0] is not body[-1] or rets[0].value is None:
+                    continue
+                if any(isinstance(x, (ast.For, ast.While, ast.FunctionDef, ast.Lambda, ast.Yield, ast.YieldFrom, ast.Try, ast.With)) and x is not g for x in ast.walk(g)):
+                    continue
+                sname = g.args.args[0].arg
+                if any(isinstance(x, ast.Attribute) and x.attr == gname and isinstance(x.value, ast.Name) and x.value.id == sname for x in ast.walk(g)):
+                    continue
+                wrapper = copy.deepcopy(g)
+                wrapper.args.args = wrapper.args.args[1:]
+                for k in [ci] + subs:
+                    for fname, f in list(k.methods.items()):
+                        if f is g or not f.args.args or f.args.args[0].arg != sname:
+                            continue
+                        sites = [st for st in ast.walk(f) if isinstance(st, ast.Assign) and isinstance(st.value, ast.Call)
+                                 and isinstance(st.value.func, ast.Attribute) and st.value.func.attr == gname
+                                 and isinstance(st.value.func.value, ast.Name) and st.value.func.value.id == sname
+                                 and not st.value.keywords and len(st.value.args) == len(wrapper.args.args)
+                                 and all(isinstance(a, (ast.Name, ast.Attribute, ast.Constant)) for a in st.value.args)]
+                        if not sites or any(isinstance(x, ast.Name) and x.id == gname for x in ast.walk(f)):
+                            continue
+                        saved = [(st, st.value.func) for st in sites]
+                        for st in sites:
+                            st.value.func = ast.copy_location(ast.Name(id=gname, ctx=ast.Load()), st.value.func)
+                        f2 = expand_assigned_calls(f, lambda nm: wrapper if nm == gname else None)
+                        for st, fu in saved:
+                            st.value.func = fu
+                        if any(isinstance(x, ast.Name) and x.id == gname for x in ast.walk(f2)):
+                            continue                               # not written out (shape outside what expand_assigned_calls reads)
+                        for _ in range(3):
+                            if not (unpack_display_assign(f2) + fold_temporaries(ast.Module(body=[f2], type_ignores=[]))):
+                                break
+                        k.methods[fname] = f2
+                        if f in k.node.body:
+                            k.node.body[k.node.body.index(f)] = f2
+                        self.value_methods_inlined += 1
 
     def _inline_trivial_accessors(self) -> None:
         """A private property or one-line private method of a class - `def _top(self): return self.stack[-1]`,
